@@ -836,7 +836,9 @@ impl<T: option::Get> FdOp for SocketOptionOp<T> {
         (): &mut Self::Args,
         err: io::Error,
     ) -> io::Result<Self::Output> {
-        if err.kind() == io::ErrorKind::Unsupported {
+        // NOTE: the fallback needs a file descriptor, for a direct descriptor
+        // `fd.fd()` is an index into the ring's table.
+        if err.kind() == io::ErrorKind::Unsupported && matches!(fd.kind(), fd::Kind::File) {
             // io_uring doesn't support set any other level than SOL_SOCKET at
             // the time of writing, so fallback to the synchronous version.
             sync_socket_option2::<T>(fd.fd())
@@ -892,7 +894,9 @@ impl<T: option::Set> FdOp for SetSocketOptionOp<T> {
         (): &mut Self::Args,
         err: io::Error,
     ) -> io::Result<Self::Output> {
-        if err.kind() == io::ErrorKind::Unsupported {
+        // NOTE: the fallback needs a file descriptor, for a direct descriptor
+        // `fd.fd()` is an index into the ring's table.
+        if err.kind() == io::ErrorKind::Unsupported && matches!(fd.kind(), fd::Kind::File) {
             // io_uring doesn't support set any other level than SOL_SOCKET at
             // the time of writing, so fallback to the synchronous version.
             sync_set_socket_option2::<T>(fd.fd(), &value.0)
